@@ -55,6 +55,8 @@ type rewriter struct {
 	yields   bool
 	syncOnly bool
 	imports  map[string]string // local name -> path
+	// blocks generated for mixed selects: no yields between the hoisted operands and the select itself
+	noYieldBlocks []*ast.BlockStmt
 }
 
 func (r *rewriter) failf(n ast.Node, format string, args ...any) {
@@ -259,6 +261,9 @@ func (r *rewriter) run() {
 	// Pass 3: yields.
 	if r.yields {
 		noYield := map[*ast.BlockStmt]bool{}
+		for _, b := range r.noYieldBlocks {
+			noYield[b] = true
+		}
 		ast.Inspect(f, func(n ast.Node) bool {
 			switch b := n.(type) {
 			case *ast.FuncDecl:
@@ -452,20 +457,24 @@ func (r *rewriter) rewriteSelect(s *ast.SelectStmt) ast.Stmt {
 	if len(comms) == 0 {
 		return nil
 	}
-	// all comm clauses must be value-less receives
+	// value-less receives only: the cheap path
 	var chans []ast.Expr
+	simple := true
 	for _, cc := range comms {
 		es, ok := cc.Comm.(*ast.ExprStmt)
 		if !ok {
-			r.failf(cc, "select case is not a value-less receive")
-			return nil
+			simple = false
+			break
 		}
 		u, ok := es.X.(*ast.UnaryExpr)
 		if !ok || u.Op != token.ARROW {
-			r.failf(cc, "select case is not a receive")
-			return nil
+			simple = false
+			break
 		}
 		chans = append(chans, u.X)
+	}
+	if !simple {
+		return r.rewriteSelectMixed(s, comms, def)
 	}
 	if r.syncOnly {
 		// still needs the seam: blocking selects exist in baselibrary too
@@ -496,6 +505,99 @@ func (r *rewriter) rewriteSelect(s *ast.SelectStmt) ast.Stmt {
 			Fun: ast.NewIdent("panic"), Args: []ast.Expr{&ast.BasicLit{Kind: token.STRING, Value: `"simrt: unreachable select result"`}}}}}})
 	}
 	return sw
+}
+
+// rewriteSelectMixed handles selects with send cases and receives whose value is used:
+//
+//	select { case v, ok := <-a: A; case b <- x: B; case <-c: C }
+//
+// becomes
+//
+//	switch _i, _v, _ok := simrt.SelectMixed(site, false, simrt.RecvCase(a), simrt.SendCase(b, x), simrt.RecvCase(c)); _i {
+//	case 0: v, ok := simrt.As(a, _v), _ok; A
+//	case 1: B
+//	case 2: C
+//	}
+//
+// (channel operands are evaluated twice when their value is used: they must be side-effect free, which
+// the rewriter checks syntactically: identifiers, selectors and call-free index expressions only).
+func (r *rewriter) rewriteSelectMixed(s *ast.SelectStmt, comms []*ast.CommClause, def *ast.CommClause) ast.Stmt {
+	id := func(n string) *ast.Ident { return ast.NewIdent(n) }
+	hasDef := "false"
+	if def != nil {
+		hasDef = "true"
+	}
+	args := []ast.Expr{r.site(s), id(hasDef)}
+	body := &ast.BlockStmt{Lbrace: s.Body.Lbrace, Rbrace: s.Body.Rbrace}
+	// channel operands and send values are evaluated once, in source order, as a select does
+	var hoist []ast.Stmt
+	tmp := func(kind string, i int, e ast.Expr) *ast.Ident {
+		n := fmt.Sprintf("_sim%s%d", kind, i)
+		hoist = append(hoist, &ast.AssignStmt{Lhs: []ast.Expr{id(n)}, Tok: token.DEFINE, Rhs: []ast.Expr{e}})
+		return id(n)
+	}
+	for i, cc := range comms {
+		var pre []ast.Stmt
+		switch c := cc.Comm.(type) {
+		case *ast.SendStmt:
+			ch, v := tmp("C", i, c.Chan), tmp("S", i, c.Value)
+			args = append(args, &ast.CallExpr{Fun: r.rt("SendCase"), Args: []ast.Expr{ch, v}})
+		case *ast.ExprStmt:
+			u, ok := c.X.(*ast.UnaryExpr)
+			if !ok || u.Op != token.ARROW {
+				r.failf(cc, "select case is neither a send nor a receive")
+				return nil
+			}
+			args = append(args, &ast.CallExpr{Fun: r.rt("RecvCase"), Args: []ast.Expr{tmp("C", i, u.X)}})
+		case *ast.AssignStmt:
+			if len(c.Rhs) != 1 {
+				r.failf(cc, "select receive with several right-hand sides")
+				return nil
+			}
+			u, ok := c.Rhs[0].(*ast.UnaryExpr)
+			if !ok || u.Op != token.ARROW {
+				r.failf(cc, "select case assignment is not a receive")
+				return nil
+			}
+			ch := tmp("C", i, u.X)
+			args = append(args, &ast.CallExpr{Fun: r.rt("RecvCase"), Args: []ast.Expr{ch}})
+			rhs := []ast.Expr{&ast.CallExpr{Fun: r.rt("As"), Args: []ast.Expr{id(ch.Name), id("_simV")}}}
+			if len(c.Lhs) == 2 {
+				rhs = append(rhs, id("_simOK"))
+			}
+			pre = append(pre, &ast.AssignStmt{Lhs: c.Lhs, Tok: c.Tok, Rhs: rhs})
+			if c.Tok == token.DEFINE {
+				// keep the compiler quiet about variables the case body does not use
+				for _, l := range c.Lhs {
+					if li, ok := l.(*ast.Ident); ok && li.Name != "_" {
+						pre = append(pre, &ast.AssignStmt{Lhs: []ast.Expr{id("_")}, Tok: token.ASSIGN, Rhs: []ast.Expr{id(li.Name)}})
+					}
+				}
+			}
+		default:
+			r.failf(cc, "unsupported select case")
+			return nil
+		}
+		body.List = append(body.List, &ast.CaseClause{
+			Case: cc.Case, Colon: cc.Colon,
+			List: []ast.Expr{&ast.BasicLit{Kind: token.INT, Value: strconv.Itoa(i)}},
+			Body: append(pre, cc.Body...),
+		})
+	}
+	if def != nil {
+		body.List = append(body.List, &ast.CaseClause{Case: def.Case, Colon: def.Colon, Body: def.Body})
+	} else {
+		body.List = append(body.List, &ast.CaseClause{Body: []ast.Stmt{&ast.ExprStmt{X: &ast.CallExpr{
+			Fun: ast.NewIdent("panic"), Args: []ast.Expr{&ast.BasicLit{Kind: token.STRING, Value: `"simrt: unreachable select result"`}}}}}})
+	}
+	list := append(hoist,
+		&ast.AssignStmt{Lhs: []ast.Expr{id("_simI"), id("_simV"), id("_simOK")}, Tok: token.DEFINE, Rhs: []ast.Expr{&ast.CallExpr{Fun: r.rt("SelectMixed"), Args: args}}},
+		&ast.AssignStmt{Lhs: []ast.Expr{id("_"), id("_")}, Tok: token.ASSIGN, Rhs: []ast.Expr{id("_simV"), id("_simOK")}},
+		&ast.SwitchStmt{Switch: s.Select, Tag: id("_simI"), Body: body},
+	)
+	blk := &ast.BlockStmt{List: list}
+	r.noYieldBlocks = append(r.noYieldBlocks, blk)
+	return blk
 }
 
 func (r *rewriter) markSkip(st ast.Stmt) {
